@@ -20,7 +20,10 @@ import (
 
 	gettylib "github.com/apache/dubbo-getty"
 
+	at "seata.apache.org/seata-go/pkg/datasource/sql"
+	"seata.apache.org/seata-go/pkg/datasource/sql/undo"
 	"seata.apache.org/seata-go/pkg/discovery"
+	"seata.apache.org/seata-go/pkg/protocol/branch"
 	"seata.apache.org/seata-go/pkg/protocol/message"
 	rconfig "seata.apache.org/seata-go/pkg/remoting/config"
 	"seata.apache.org/seata-go/pkg/remoting/getty"
@@ -341,6 +344,7 @@ func firstLine(s string) string {
 type CEvent struct {
 	K      string   `json:"k"` // resource | lost | reconnect
 	Res    string   `json:"res,omitempty"`
+	BT     int      `json:"bt"` // resource: branch type (0 AT, 1 TCC, 3 XA)
 	ByPeer bool     `json:"by_peer,omitempty"` // lost: the session was already closed when the handler released it
 	Via    string   `json:"via,omitempty"`     // lost: OnClose | OnError
 	Addr   string   `json:"addr"`              // address of the session the event is about
@@ -362,6 +366,16 @@ type CHistory struct {
 	BadAt     int      `json:"bad_at"`
 	Resources []string `json:"resources"`
 }
+
+// a resource of a data-source resource manager without a database behind it
+type plainResource struct {
+	id string
+	bt branch.BranchType
+}
+
+func (p *plainResource) GetResourceGroupId() string       { return "DEFAULT" }
+func (p *plainResource) GetResourceId() string            { return p.id }
+func (p *plainResource) GetBranchType() branch.BranchType { return p.bt }
 
 type action struct{ name string }
 
@@ -385,6 +399,8 @@ func initClient() {
 			&rconfig.SeataConfig{ApplicationID: "verif-app", TxServiceGroup: "verif-group", LoadBalanceType: "XID"})
 		rm.InitRm(rm.RmConfig{ApplicationID: "verif-app", TxServiceGroup: "verif-group"})
 		tcc.InitTCC()
+		at.InitAT(undo.Config{}, at.AsyncWorkerConfig{BufferLimit: 10, BufferCleanInterval: time.Hour, ReceiveChanSize: 10, CommitWorkerCount: 1, CommitWorkerBufferSize: 10})
+		at.InitXA(at.XAConfig{TwoPhaseHoldTime: time.Second})
 	})
 }
 
@@ -451,6 +467,9 @@ func sentOf(s *fakeSession, from int) []string {
 
 var resCounter int
 
+// resources registered by the client history of this process (the caches are process-global)
+var heldResources []string
+
 var clientAddrs = []string{"127.0.0.1:8091", "127.0.0.1:8092", "10.0.0.5:8091"}
 
 // one history through the REAL session manager paths (OnOpen -> registerSession,
@@ -465,6 +484,7 @@ func runClientHistory(r *hutil.Rng, script []string) CHistory {
 	sid := 1000
 	addrIdx := 0
 	var registered []string
+	typesHeld := map[branch.BranchType]bool{}
 	var cur *fakeSession
 	connected := false
 	counts := func(ev *CEvent) {
@@ -499,16 +519,10 @@ func runClientHistory(r *hutil.Rng, script []string) CHistory {
 			}
 		}
 		ev.Held = append([]string{}, registered...)
-		if len(registered) > 0 {
-			ev.Pred = []string{"reconnect.rm-reannounce"} // a resource was registered before the connection was lost
-		}
 		if len(missing) > 0 {
 			ev.Oracle = fmt.Sprintf("after the connection was (re-)established the new session %d to %s is open and registered (%d in the registry) but did not carry: %s", ev.Sess, ev.Addr, ev.All, strings.Join(missing, ", "))
 			if ev.WriteFail {
 				ev.Oracle += " (its first write failed and nothing retried)"
-			}
-			if !hasTM {
-				ev.Pred = nil // a missing RegisterTM is not what the finding lists
 			}
 			if h.Oracle == "" {
 				h.Oracle, h.BadAt = ev.Oracle, idx
@@ -522,17 +536,30 @@ func runClientHistory(r *hutil.Rng, script []string) CHistory {
 				continue // registering while disconnected waits 60 s for a session (C14/C15 territory)
 			}
 			resCounter++
+			// branch type of the resource: TCC through the TCC resource manager, AT / XA through
+			// the data-source resource managers (a resource without a database behind it: the
+			// managers cache and announce any rm.Resource)
+			bt := []branch.BranchType{branch.BranchTypeTCC, branch.BranchTypeTCC, branch.BranchTypeAT, branch.BranchTypeXA}[r.Intn(4)]
 			name := fmt.Sprintf("verifRes%d_%d", resCounter, r.Intn(1000))
+			if bt != branch.BranchTypeTCC {
+				name = fmt.Sprintf("jdbc:mysql://db%d:3306/s%d", r.Intn(1000), resCounter)
+			}
 			before := cur.nWrites()
-			act, err := rm.ParseTwoPhaseAction(&action{name: name})
-			if err != nil {
-				h.Oracle = "ParseTwoPhaseAction: " + err.Error()
-				return h
+			var res rm.Resource
+			if bt == branch.BranchTypeTCC {
+				act, err := rm.ParseTwoPhaseAction(&action{name: name})
+				if err != nil {
+					h.Oracle = "ParseTwoPhaseAction: " + err.Error()
+					return h
+				}
+				res = &tcc.TCCResource{ResourceGroupId: "DEFAULT", AppName: "verif-app", TwoPhaseAction: act}
+			} else {
+				res = &plainResource{id: name, bt: bt}
 			}
 			class, detail := hutil.Guard(12*time.Second, func() error {
-				return tcc.GetTCCResourceManagerInstance().RegisterResource(&tcc.TCCResource{ResourceGroupId: "DEFAULT", AppName: "verif-app", TwoPhaseAction: act})
+				return rm.GetRmCacheInstance().GetResourceManager(bt).RegisterResource(res)
 			})
-			ev := CEvent{K: "resource", Res: name, Sess: cur.id, Addr: cur.addr}
+			ev := CEvent{K: "resource", Res: name, BT: int(bt), Sess: cur.id, Addr: cur.addr}
 			if class != hutil.OutOK {
 				ev.Sent = []string{"<<" + class + ": " + firstLine(detail) + ">>"}
 				if h.Oracle == "" {
@@ -541,6 +568,7 @@ func runClientHistory(r *hutil.Rng, script []string) CHistory {
 			} else {
 				ev.Sent = sentOf(cur, before)
 				registered = append(registered, name)
+				typesHeld[bt] = true
 			}
 			ev.Open = !cur.IsClosed()
 			counts(&ev)
@@ -603,7 +631,7 @@ func runClientHistory(r *hutil.Rng, script []string) CHistory {
 				time.Sleep(15 * time.Millisecond)
 				ev.Sent = sentOf(s, 0)
 			} else {
-				waitWrites(s, 1+len(registered), 250*time.Millisecond)
+				waitWrites(s, 1+len(typesHeld), 250*time.Millisecond)
 				ev.Sent = sentOf(s, 0)
 			}
 			ev.Open = !s.IsClosed()
@@ -619,6 +647,7 @@ func runClientHistory(r *hutil.Rng, script []string) CHistory {
 		hutil.Guard(5*time.Second, func() error { handler.OnClose(s); return nil })
 	}
 	h.Resources = registered
+	heldResources = append(heldResources, registered...)
 	return h
 }
 
@@ -639,7 +668,7 @@ func genScript(r *hutil.Rng, i int) []string {
 			"lost:peer", "reconnect:same:fail", "reconnect:same",
 			"lost:open", "reconnect:other:fail", "reconnect:same:fail", "reconnect:same"}
 	case 1:
-		return []string{"resource", "lost:peer", "reconnect:same"} // the refutation witness of the model
+		return []string{"resource", "lost:peer", "reconnect:same"} // one resource, one reconnect
 	case 2:
 		return []string{"resource", "resource", "lost:open", "reconnect:same", "lost:peer", "reconnect:other"}
 	case 3:
@@ -695,8 +724,31 @@ func runIntegrated(r *hutil.Rng, nsend int) History {
 		reg = append(reg, &regEntry{s: s})
 		h.Events = append(h.Events, Event{K: "open", ID: s.id, Addr: hx(a)})
 	}
-	// let the RegisterTM goroutines of OnOpen finish (they are routed by the balancer too)
-	time.Sleep(60 * time.Millisecond)
+	// let the goroutines of OnOpen finish (the RegisterTM is routed by the balancer)
+	time.Sleep(80 * time.Millisecond)
+	// several coordinator connections at once: every one of them must have been told, on
+	// ITSELF, the resources the client holds (registered during the client history)
+	for i, e := range reg {
+		announced := map[string]bool{}
+		for _, d := range sentOf(e.s, 0) {
+			if strings.HasPrefix(d, "RM:") {
+				for _, id := range strings.Split(d[3:], ",") {
+					announced[id] = true
+				}
+			}
+		}
+		var missing []string
+		for _, id := range heldResources {
+			if !announced[id] {
+				missing = append(missing, id)
+			}
+		}
+		if len(missing) > 0 && h.Oracle == "" {
+			h.Oracle = fmt.Sprintf("session %d to %s, opened while %d other coordinator connection(s) were up, was not told %d of the %d registered resources on itself (e.g. %s)",
+				e.s.id, e.s.addr, i, len(missing), len(heldResources), missing[0])
+			h.BadAt = i
+		}
+	}
 	for i := 0; i < nsend; i++ {
 		target := reg[r.Intn(len(reg))]
 		xid := target.s.addr + ":" + fmt.Sprint(r.Next()%1000000)
